@@ -52,7 +52,7 @@ def make_data(rng: random.Random) -> dict:
         "key": rng.choice(["name", "age", "missing", "first"]),
         "idx": rng.choice([0, 1, -1, 7]),
         "pname": rng.choice(PARTIAL_NAMES),
-        "kobj": {"__liquid__": rng.choice(["name", "age", "tags", "missing"])},
+        "kobj": {"__liquid__": rng.choice(["name", "age", "tags", "missing", "size", "first", "last", "size", "first", "last"])},
         "iobj": {"__liquid__": rng.choice([0, 1, -1, 5])},
         **({} if rng.random() < 0.5 else {
             # render-context variables read by the Babel filters
@@ -106,7 +106,8 @@ class ProgGen:
         if self.locals and r.random() < 0.3:
             return r.choice(self.locals)
         if r.random() < 0.14:
-            return r.choice(["user[kobj]", "h[kobj]", "products[iobj].title", "nums[iobj]", "user.tags[iobj]", "words[iobj]",
+            return r.choice(["user[kobj]", "h[kobj]", "nums[kobj]", "user.tags[kobj]", "products[kobj]", "h.list[kobj]",
+                             "words[kobj]", "nested[kobj]", "products[iobj].title", "nums[iobj]", "user.tags[iobj]", "words[iobj]",
                              "cfgd.items", "shared.list", "cfgd.items[0]", "shared.n", "cfgd.k",
                              "products[idx].title", "user[key]", "user.tags[n]", "h[key]", "products[n].tags[idx]",
                              "nested[n][idx]", "h.list[n]", "products[user.tags.size].title", "user[h.b]",
@@ -536,7 +537,8 @@ class ProgGen:
         elif c < 0.55:
             s += f" for {r.choice(['products', 'user.tags', 'nums'])}" + (" as item" if r.random() < 0.5 else "")
         if r.random() < 0.4:
-            s += ", " + ", ".join(f"{r.choice(['who', 'a', 'item'])}: {self.primitive()}" for _ in range(r.randint(1, 2)))
+            s += ", " + ", ".join(f"{r.choice(['who', 'a', 'item', 'products', 'user', 'nums', 'n', 's'])}: {self.primitive()}"
+                                  for _ in range(r.randint(1, 2)))
         return self.tag(s)
 
     def n_render(self, depth):
@@ -555,7 +557,8 @@ class ProgGen:
         elif c < 0.6:
             s += f" for {r.choice(['products', 'user.tags', 'nums'])}" + (" as item" if r.random() < 0.5 else "")
         if r.random() < 0.4:
-            s += ", " + ", ".join(f"{r.choice(['who', 'a', 'item'])}: {self.primitive()}" for _ in range(r.randint(1, 2)))
+            s += ", " + ", ".join(f"{r.choice(['who', 'a', 'item', 'products', 'user', 'nums', 'n', 's'])}: {self.primitive()}"
+                                  for _ in range(r.randint(1, 2)))
         return self.tag(s)
 
     def n_translate(self, depth):
@@ -583,7 +586,12 @@ class ProgGen:
         base = "<html>"
         for b in blocks:
             req = " required" if (b == "content" and r.random() < 0.2) else ""
-            base += self.tag(f"block {b}{req}") + f"base-{b} " + self.block(self.max_depth, 1) + self.tag("endblock")
+            blk = self.tag(f"block {b}{req}") + f"base-{b} " + self.block(self.max_depth - 1, 1) + self.tag("endblock")
+            if r.random() < 0.3:   # a block inside a loop: loop-iteration carry into overrides
+                blk = self.tag("for bi in " + r.choice(["(1..3)", "products", "nums", "(1..m)"])) + blk + self.tag("endfor")
+            elif r.random() < 0.15:
+                blk = self.tag("capture bc") + blk + self.tag("endcapture") + self.out("bc")
+            base += blk
         base += self.block(self.max_depth, 1) + "</html>"
         self.partials[names[0]] = base
         for i in range(1, depth_chain):
@@ -593,7 +601,7 @@ class ProgGen:
             src = self.tag(f"extends '{parent}'")
             for b in r.sample(blocks, r.randint(0, 3)):
                 src += self.tag(f"block {b}") + f"L{i}-{b} " + (self.out("block.super") if r.random() < 0.6 else "") \
-                    + self.block(self.max_depth, 1) + self.tag(f"endblock {b}" if r.random() < 0.3 else "endblock")
+                    + self.block(self.max_depth - 1, 1) + self.tag(f"endblock {b}" if r.random() < 0.3 else "endblock")
             self.partials[names[i]] = src
         return names[depth_chain - 1]
 
@@ -603,7 +611,11 @@ class ProgGen:
             parent = self.layout_chain(r.randint(1, 3))
             src = self.tag(f"extends '{parent}'")
             for b in r.sample(["head", "content", "foot", "extra"], r.randint(1, 3)):
-                src += self.tag(f"block {b}") + self.block(1, 2) + (self.out("block.super") if r.random() < 0.5 else "") \
+                inner = self.block(1, 2)
+                if r.random() < 0.4:
+                    inner += self.tag("for oi in " + r.choice(["(1..3)", "nums", "products", "(1..m)"])) + self.out("oi") \
+                        + self.tag("endfor")
+                src += self.tag(f"block {b}") + inner + (self.out("block.super") if r.random() < 0.5 else "") \
                     + self.tag("endblock")
             return src
         return self.block(0, r.randint(2, 7))
